@@ -16,6 +16,15 @@ type lemmaVC struct {
 // table obligations.
 func generateLemmas(P *Program) (obls []*Obligation, drift []string) {
 	for _, l := range P.lemmas {
+		if l.Induction != "" {
+			os, err := inductionObligations(P, l)
+			if err != nil {
+				drift = append(drift, err.Error())
+				continue
+			}
+			obls = append(obls, os...)
+			continue
+		}
 		o, err := lemmaObligation(P, l)
 		if err != nil {
 			drift = append(drift, err.Error())
@@ -481,5 +490,66 @@ func strmapEntryObligation(P *Program, tb *TableSpec, key, val string, entries m
 			Desc: fmt.Sprintf("entry %q ↦ %q of %s satisfies %s", key, val, tb.Var, exprString(sem.E)), Goal: goal,
 			lemma: &lemmaVC{script: e.script(fv.bg, "(assert "+not(goal)+")", nil)}})
 	}
+	return obls, nil
+}
+
+// inductionObligations: lemma  forall n, xs :: B(n, xs)  proved by induction on n (n >= 0 is
+// part of B's hypothesis or irrelevant): base  forall xs :: B(0, xs)  and step
+// (forall xs :: B(N, xs)) ==> (forall xs :: B(N+1, xs))  for a fresh N >= 0.
+func inductionObligations(P *Program, l *Lemma) (obls []*Obligation, err error) {
+	defer func() {
+		if r := recover(); r != nil {
+			if se, ok := r.(specError); ok {
+				err = fmt.Errorf("lemma %s: %s", l.Name, se.msg)
+				return
+			}
+			panic(r)
+		}
+	}()
+	q, ok := l.Body.(*EQuant)
+	if !ok || !q.Forall {
+		return nil, fmt.Errorf("lemma %s: induction needs a universally quantified body", l.Name)
+	}
+	var others []QVar
+	found := false
+	for _, v := range q.Vars {
+		if v.Name == l.Induction {
+			found = true
+			continue
+		}
+		others = append(others, v)
+	}
+	if !found {
+		return nil, fmt.Errorf("lemma %s: induction variable %s is not bound by the outer forall", l.Name, l.Induction)
+	}
+	inst := func(n Expr) Expr {
+		b := substExpr(q.Body, map[string]Expr{l.Induction: n})
+		if len(others) == 0 {
+			return b
+		}
+		return &EQuant{Forall: true, Vars: others, Body: b}
+	}
+	mk := func(kind string, hyp Expr, goal Expr) *Obligation {
+		e := newEnc(P)
+		fv := &FuncVC{P: P, e: e, name: "lemma:" + l.Name, oblCount: map[string]int{}, assumptions: map[string]bool{}, oblBlk: -1}
+		st := &State{kind: sEntry, h: map[string]Term{}, fv: fv}
+		env := &Env{e: e, vars: map[string]TV{}, st: st, old: st, pkg: l.Pkg, alloc0: "0"}
+		N := e.constant("ind_N", "Int")
+		env.vars["ind_N"] = TV{N, tyInt}
+		var bg []string
+		bg = append(bg, "(assert (>= ind_N 0))")
+		if hyp != nil {
+			bg = append(bg, "(assert "+env.trBool(hyp)+")")
+		}
+		g := env.trBool(goal)
+		bg = append(bg, fv.bg...)
+		bg = append(bg, axiomsFor(e, nil)...)
+		name := shortPkg(l.Pkg) + ".lemma:" + l.Name + "/" + kind
+		return &Obligation{Name: name, Kind: "lemma", Props: l.Props, Func: name, Pos: fmt.Sprintf("%s:%d", l.File, l.Line), Desc: "lemma " + l.Name + " (" + kind + " case of induction on " + l.Induction + ")", Goal: g,
+			lemma: &lemmaVC{script: e.script(bg, "(assert "+not(g)+")", nil)}}
+	}
+	N := &EIdent{Name: "ind_N"}
+	obls = append(obls, mk("base", nil, inst(&EInt{Val: "0"})))
+	obls = append(obls, mk("step", inst(N), inst(&EBin{Op: "+", L: N, R: &EInt{Val: "1"}})))
 	return obls, nil
 }
